@@ -190,4 +190,50 @@ def suite_algo_switch(ctx):
     return s
 
 
-SUITES = [suite_hist, suite_signatures, suite_algo_switch]
+def suite_algo_raises(ctx):
+    """the configured algorithm fails (its own body raises - a secret not loaded yet, a signing service that is down): it was called exactly once for that seed, its
+    exception reaches the caller, and nothing but the seed request was transmitted"""
+    from .. import clientlib as cl
+    s = Suite('algo_raises')
+    for exc_type in (TypeError, ValueError, RuntimeError, KeyError, ZeroDivisionError):
+        for sig in ('s', 'sl', 'slp', 'obj', 'kw'):
+            for level in (1, 2, 0x7D):
+                calls = []
+
+                def boom():
+                    calls.append(1)
+                    if exc_type is TypeError:
+                        return None + 1         # a genuine TypeError from the algorithm's own body
+                    raise exc_type('algorithm failed')
+                if sig == 's':
+                    algo = lambda seed: boom()
+                elif sig == 'sl':
+                    algo = lambda seed, level: boom()
+                elif sig == 'slp':
+                    algo = lambda seed, level, params: boom()
+                elif sig == 'kw':
+                    algo = lambda **kw: boom()
+                else:
+                    class O:
+                        def __call__(self, seed, level, params):
+                            return boom()
+                    algo = O()
+                client, conn = cl.make_client(cl.Cfg(), extra={'security_algo': algo, 'security_algo_params': b'\x01'})
+                conn.responder = lambda p: [(1, bytes([0x67, p[1]]) + (b'\x11\x22\x33' if p[1] % 2 == 1 else b''))]
+                how, verdict, flags, payload, e, r = cl.observe_outer(conn, lambda: client.unlock_security_access(level))
+                sends = [o[1] for o in conn.log if o[0] == 'send']
+                k = (level + 1) // 2
+                s.evaluations += 1
+                s.distinct.add('%s:%s:%d' % (exc_type.__name__, sig, level))
+                rec = {'site': 'unlock_security_access', 'input': 'security_algo (%s signature) raises %s; level %d' % (sig, exc_type.__name__, level)}
+                if len(calls) != 1:
+                    s.fail(dict(rec, observed='algorithm called %d times' % len(calls), required='exactly once'))
+                elif sends != [bytes([0x27, 2 * k - 1])]:
+                    s.fail(dict(rec, observed=[x.hex() for x in sends], required='only the seed request %s' % bytes([0x27, 2 * k - 1]).hex()))
+                elif how != 'exc' or not isinstance(e, exc_type):
+                    s.fail(dict(rec, observed='%s %s' % (how, type(e).__name__ if e is not None else verdict), required='the algorithm\'s %s reaches the caller' % exc_type.__name__))
+    s.exhaustive = True
+    return s
+
+
+SUITES = [suite_hist, suite_signatures, suite_algo_switch, suite_algo_raises]
